@@ -39,6 +39,8 @@ fn field_name_c15(rng: &mut Rng) -> String {
     const POOL: &[&str] = &[
         "name", "id", "fooBar", "foo_bar", "type", "match", "loop", "move", "ref", "fn", "in", "as", "use", "mod", "URL", "userID", "x1", "a", "ipV6", "is_ok", "Count", "httpStatusCode", "v2_api", "self_", "value", "async",
         "await", "dyn", "struct", "enum", "trait", "where", "while", "for", "if", "else", "let", "mut", "pub", "static", "const", "true", "false", "box", "try",
+        // spellings that only become a Rust keyword once they are converted to snake_case
+        "Type", "Match", "Loop", "Ref", "Box", "In", "Final", "Move", "Fn", "Yield", "Try", "Async", "Abstract", "Override", "Where", "Use", "Mod", "Impl", "Dyn",
     ];
     let mut s = rng.pick(POOL).to_string();
     if s == "self_" {
